@@ -1,7 +1,7 @@
 (* C03 — Parser is total, rejects ill-formed text, and accepts only sound trees.
    Pinned statements only.  Model: Model/Builder.v (src/parse.rs), Model/Entity.v (src/entity.rs). *)
 From Coq Require Import List NArith.
-From XotV Require Import Model.Base Model.Interning Model.Fullname Model.Entity Model.Builder Proofs.EntityProofs Proofs.BuilderProofs.
+From XotV Require Import Model.Base Model.Interning Model.Fullname Model.Entity Model.Builder Proofs.EntityProofs Proofs.BuilderProofs Proofs.BuilderTotal.
 Import ListNotations.
 Open Scope N_scope.
 
@@ -49,3 +49,37 @@ Proof.
   apply str_eqb_eq in E. contradiction.
 Qed.
 Print Assumptions C03_refused_tokens.
+
+(* "Total": on every token stream with the shape xmlparser gives its output (attributes and the end of a start tag only inside
+   a start tag, everything else only outside; the driver checks [stream_shape] on every stream xmlparser produced), for every
+   interning state, arena position and source length, none of the unwrap / expect calls of src/parse.rs (DocumentBuilder,
+   NameIdBuilder, the span bookkeeping, the top-level checks, unclosed_tag) can fail: the answer is a parsed tree, a ParseError,
+   or the unwinding of a full interning table (BFull, the checked id conversion of C08) — never BPanic. *)
+Theorem C03_parse_never_panics :
+  forall bi t next srclen ts, stream_shape false ts = true -> parse_document bi t next srclen ts <> BPanic.
+Proof. exact parse_document_never_panics. Qed.
+Print Assumptions C03_parse_never_panics.
+
+Theorem C03_parse_fragment_never_panics :
+  forall bi t next ts, stream_shape false ts = true -> parse_fragment bi t next ts <> BPanic.
+Proof. exact parse_fragment_never_panics. Qed.
+Print Assumptions C03_parse_fragment_never_panics.
+
+(* the invariant behind it holds after every prefix of the stream: the open nodes are elements above one document node, and
+   every element and text node built so far has the span that the error paths read *)
+Theorem C03_builder_invariant_along_any_stream :
+  forall bi ts intag st, J intag st -> stream_shape intag ts = true ->
+    match brun bi st ts with BOk st' => BInv st' | BPanic => False | _ => True end.
+Proof. exact brun_total. Qed.
+Print Assumptions C03_builder_invariant_along_any_stream.
+
+(* non-vacuity: the hypothesis holds of a real stream, and a stream without that shape does reach an unwrap *)
+Example C03_shape_example :
+  stream_shape false [TkElementStart {| ss_text := []; ss_span := {| sp_start := 1; sp_end := 1 |} |}
+                                     {| ss_text := [97]; ss_span := {| sp_start := 1; sp_end := 2 |} |};
+                      TkEndEmpty {| sp_start := 2; sp_end := 4 |}] = true.
+Proof. reflexivity. Qed.
+
+Example C03_shape_is_needed :
+  forall bi t, parse_fragment bi t 0 [TkEndOpen {| sp_start := 0; sp_end := 1 |}] = BPanic.
+Proof. reflexivity. Qed.
